@@ -59,6 +59,11 @@ def main():
     queue = ["clean"] + muts
     out = {}
     path = f"{VERIF}/seeded/matrix.json" if TARGET_ONLY else f"{VERIF}/seeded/matrix_cross.json"
+    if "--only" in sys.argv:
+        # re-run a subset (ids or id prefixes after --only) and merge the results into the existing file
+        want = sys.argv[sys.argv.index("--only") + 1:]
+        queue = [m for m in queue if any(m == w or m.startswith(w) for w in want)]
+        out = json.load(open(path))
     # static round-robin assignment, one thread per worker
     def run_worker(k):
         for m in queue[k::n]:
